@@ -271,6 +271,43 @@ let cmd_match args =
       | _ -> "err")
   | _ -> failwith "match: bad arguments"
 
+(* is the capture assignment [expected] (the text `1 0,n;s,e;...;-` of run_match) the assignment of *some* successful parse of the
+   path by the program?  The matcher enumerates the parses in backtracking order; the final continuation rejects every parse
+   whose assignment differs, so the search visits all of them (within the time budget). *)
+let run_caps_ok (r : Regex.re) (ncaps : int) (path : string) (expected : string) : string =
+  let cps = decode path in
+  let w = L.map n_of_int cps in
+  let len = L.length w in
+  let off = byte_offsets cps in
+  let parts = String.split_on_char ';' expected in
+  (match parts with
+   | first :: rest when first = Printf.sprintf "1 0,%d" off.(len) && L.length rest = ncaps + 1 ->
+       let want = Array.of_list (L.filteri (fun i _ -> i < ncaps) rest) in
+       let size = int_of_nat (Regex.re_size r) in
+       let fuel = nat_of_int (((size + 2) * (len + 2)) + ((size + 2) * sum_lo r) + 16) in
+       let total = nat_of_int len in
+       let agrees c =
+         let ok = ref true in
+         Array.iteri (fun g wtxt ->
+           let got = match Regex.get_cap (nat_of_int g) c with
+             | Some (s, e) -> Printf.sprintf "%d,%d" off.(int_of_nat s) off.(int_of_nat e)
+             | None -> "-" in
+           if got <> wtxt then ok := false) want;
+         !ok in
+       let k w' c = match w' with [] -> if agrees c then Some c else None | _ -> None in
+       (match Regex.m orbit total fuel r Datatypes.O w [] k with Some _ -> "1" | None -> "0")
+   | _ -> "0")
+
+let cmd_capsok args =
+  match args with
+  | [e; p; x] -> (
+      match Glob.build (to_str (unhex e)) with
+      | Glob.BuildOk (t, r) -> run_caps_ok r (L.length (Query.captures t)) (unhex p) (unhex x)
+      | Glob.BuildPanic _ -> "panic"
+      | Glob.BuildFuel -> "model-out-of-fuel"
+      | _ -> "err")
+  | _ -> failwith "capsok: bad arguments"
+
 let max_bound (t : Token.tok) : int =
   let rec go t = match t with
     | Token.TLeaf _ -> 0
@@ -468,6 +505,7 @@ let dispatch (line : string) : string =
       | "any" -> cmd_any args
       | "anymatch" -> cmd_anymatch args
       | "mm" -> cmd_mm args
+      | "capsok" -> cmd_capsok args
       | "anymm" -> cmd_anymm args
       | "lang" -> cmd_lang args
       | "anylang" -> cmd_anylang args
